@@ -913,7 +913,187 @@ def extract_isconvex():
     return d
 
 
+# --------------------------------------------------------------------------- round 4: surface / footprint slab / region-in-region
+def _isinstance_branch(fn, var, cls, what):
+    for st in body_nodoc(fn):
+        if (isinstance(st, ast.If) and isinstance(st.test, ast.Call) and dotted(st.test.func) == "isinstance"
+                and len(st.test.args) == 2 and dotted(st.test.args[0]) == var and dotted(st.test.args[1]) == cls):
+            return st.body
+    raise TemplateMismatch(f"{what}: no `if isinstance({var}, {cls}):` branch")
+
+
+def _ret_const(st, what):
+    expect(isinstance(st, ast.Return) and isinstance(st.value, ast.Constant) and isinstance(st.value.value, bool),
+           f"{what}: does not return a boolean constant")
+    return st.value.value
+
+
+def _arith(node, env, what):
+    """Python arithmetic over named quantities -> Lean `Rat` expression (env: unparse()d sub-expression -> Lean text)"""
+    key = ast.unparse(node)
+    if key in env:
+        return env[key]
+    if isinstance(node, ast.Constant) and isinstance(node.value, (int, float)) and not isinstance(node.value, bool):
+        return lean_rat(node.value)
+    if isinstance(node, ast.BinOp) and type(node.op) in (ast.Add, ast.Sub, ast.Mult, ast.Div):
+        op = {ast.Add: "+", ast.Sub: "-", ast.Mult: "*", ast.Div: "/"}[type(node.op)]
+        return f"({_arith(node.left, env, what)} {op} {_arith(node.right, env, what)})"
+    if isinstance(node, ast.UnaryOp) and isinstance(node.op, ast.USub):
+        return f"(-{_arith(node.operand, env, what)})"
+    if isinstance(node, ast.Call) and dotted(node.func) == "max" and len(node.args) == 2 and not node.keywords:
+        return f"(maxR {_arith(node.args[0], env, what)} {_arith(node.args[1], env, what)})"
+    raise TemplateMismatch(f"{what}: unexpected arithmetic `{key}`")
+
+
+def extract_surface():
+    """the three passes of MeshVolumeRegion.intersects(MeshSurfaceRegion)"""
+    src, tree = load(REGIONS)
+    what = "MeshVolumeRegion.intersects(MeshSurfaceRegion)"
+    body = _isinstance_branch(get_def(tree, "MeshVolumeRegion.intersects", REGIONS), "other", "MeshSurfaceRegion", what)
+    env, exits, final = {}, [], None
+    surf_class_used = False
+    for st in body:
+        if isinstance(st, ast.Assign) and len(st.targets) == 1 and isinstance(st.targets[0], ast.Name):
+            name, v = st.targets[0].id, st.value
+            if isinstance(v, (ast.ListComp, ast.GeneratorExp)):
+                ndim, sides = _bbox_gen(None, v)
+                expect(ndim == 3, f"{what}: bounding boxes compared in {ndim} dimensions")
+                a = sorted((ast.unparse(x), ast.unparse(y)) for x, y in sides)
+                expect(a == [("other.mesh.bounds", "self.mesh.bounds"), ("self.mesh.bounds", "other.mesh.bounds")],
+                       f"{what}: bounding-box test does not compare the two meshes crosswise: {a}")
+                env[name] = "ranges"
+            elif isinstance(v, ast.Call) and dotted(v.func) == "all" and len(v.args) == 1 and env.get(ast.unparse(v.args[0])) == "ranges":
+                env[name] = "bbOverlap"
+            elif isinstance(v, ast.Call) and dotted(v.func) == "trimesh.collision.CollisionManager":
+                env[name] = "manager"
+            elif (isinstance(v, ast.Call) and isinstance(v.func, ast.Attribute) and v.func.attr == "in_collision_internal"
+                  and env.get(ast.unparse(v.func.value)) == "manager" and not v.args):
+                env[name] = "collide"
+            else:
+                raise TemplateMismatch(f"{what}: unexpected assignment `{ast.unparse(st)[:80]}`")
+        elif isinstance(st, ast.Expr) and isinstance(st.value, ast.Call) and isinstance(st.value.func, ast.Attribute) \
+                and st.value.func.attr == "add_object" and env.get(ast.unparse(st.value.func.value)) == "manager":
+            arg = st.value.args[1] if len(st.value.args) == 2 else None
+            if isinstance(arg, ast.Call) and dotted(arg.func) == "SurfaceCollisionTrimesh":
+                kws = {k.arg: ast.unparse(k.value) for k in arg.keywords}
+                expect(kws == {"faces": "other.mesh.faces", "vertices": "other.mesh.vertices"}, f"{what}: surface collision mesh is not other's mesh")
+                surf_class_used = True
+            else:
+                expect(arg is not None and ast.unparse(arg) == "self.mesh", f"{what}: unexpected collision object")
+        elif isinstance(st, ast.If) and not st.orelse and len(st.body) == 1:
+            t = st.test
+            if isinstance(t, ast.UnaryOp) and isinstance(t.op, ast.Not):
+                exits.append(("not", env.get(ast.unparse(t.operand)), _ret_const(st.body[0], what)))
+            else:
+                exits.append(("", env.get(ast.unparse(t)), _ret_const(st.body[0], what)))
+        elif isinstance(st, ast.Return):
+            final = st.value
+        else:
+            raise TemplateMismatch(f"{what}: unexpected statement `{ast.unparse(st)[:80]}`")
+    expect([(n, k) for n, k, _ in exits] == [("not", "bbOverlap"), ("", "collide")], f"{what}: skeleton changed: {exits}")
+    expect(surf_class_used, f"{what}: the surface is no longer wrapped in SurfaceCollisionTrimesh")
+    expect(final is not None, f"{what}: no final return")
+    neg = False
+    if isinstance(final, ast.UnaryOp) and isinstance(final.op, ast.Not):
+        neg, final = True, final.operand
+    expect(isinstance(final, ast.Call) and dotted(final.func) == "self.containsPoint" and len(final.args) == 1,
+           f"{what}: final answer is not self.containsPoint(...)")
+    arg = final.args[0]
+    expect(isinstance(arg, ast.Subscript) and ast.unparse(arg.value) == "other.mesh.vertices"
+           and isinstance(arg.slice, ast.Constant) and isinstance(arg.slice.value, int),
+           f"{what}: the tested point is not a vertex of the surface mesh")
+    return {"p1Ret": exits[0][2], "p2Ret": exits[1][2], "p3Negate": neg}
+
+
+def extract_footslab():
+    """MeshVolumeRegion.intersects(PolygonalFootprintRegion): the slab; approxBoundFootprint: cache test and padding"""
+    src, tree = load(REGIONS)
+    what = "MeshVolumeRegion.intersects(PolygonalFootprintRegion)"
+    body = _isinstance_branch(get_def(tree, "MeshVolumeRegion.intersects", REGIONS), "other", "PolygonalFootprintRegion", what)
+    env, d = {}, {}
+    expect(len(body) >= 2 and isinstance(body[-1], ast.Return), f"{what}: no final return")
+    for st in body[:-1]:
+        expect(isinstance(st, ast.Assign) and len(st.targets) == 1 and isinstance(st.targets[0], ast.Name), f"{what}: unexpected statement")
+        name, v = st.targets[0].id, st.value
+        if isinstance(v, ast.Tuple) and [ast.unparse(e) for e in v.elts] == ["self.mesh.bounds[0][2]", "self.mesh.bounds[1][2]"]:
+            env[f"{name}[0]"], env[f"{name}[1]"] = "lo", "hi"
+        elif isinstance(v, ast.Call) and isinstance(v.func, ast.Attribute) and v.func.attr == "approxBoundFootprint" \
+                and ast.unparse(v.func.value) == "other" and len(v.args) == 2:
+            a0, a1 = (env.get(ast.unparse(a)) for a in v.args)
+            expect(a0 is not None and a1 is not None, f"{what}: approxBoundFootprint is not called with computed quantities")
+            d["center"], d["height"] = a0, a1
+            env[name] = "BOUNDED"
+        else:
+            env[name] = _arith(v, env, what)
+    r = body[-1].value
+    expect(isinstance(r, ast.Call) and dotted(r.func) == "self.intersects" and len(r.args) == 1
+           and env.get(ast.unparse(r.args[0])) == "BOUNDED", f"{what}: does not return self.intersects(<bounded footprint>)")
+    expect("center" in d, f"{what}: approxBoundFootprint is not called")
+    # the cache
+    what = "PolygonalFootprintRegion.approxBoundFootprint"
+    fn = get_def(tree, "PolygonalFootprintRegion.approxBoundFootprint", REGIONS)
+    args = [a.arg for a in fn.args.args]
+    expect(len(args) == 3, f"{what}: signature changed")
+    env = {args[1]: "cz", args[2]: "h"}
+    stmts = body_nodoc(fn)
+    expect(len(stmts) == 5, f"{what}: skeleton changed ({len(stmts)} statements)")
+    c = stmts[0]
+    expect(isinstance(c, ast.If) and ast.unparse(c.test) == "self._bounded_cache is not None" and not c.orelse
+           and len(c.body) == 2, f"{what}: cache guard changed")
+    un = c.body[0]
+    expect(isinstance(un, ast.Assign) and isinstance(un.targets[0], ast.Tuple) and len(un.targets[0].elts) == 3
+           and ast.unparse(un.value) == "self._bounded_cache", f"{what}: cache is not unpacked into three names")
+    pcn, phn, pbn = (e.id for e in un.targets[0].elts)
+    env2 = dict(env); env2[pcn] = "pc"; env2[phn] = "ph"
+    t = c.body[1]
+    expect(isinstance(t, ast.If) and not t.orelse and len(t.body) == 1 and isinstance(t.body[0], ast.Return)
+           and ast.unparse(t.body[0].value) == pbn, f"{what}: a cache hit does not return the cached region")
+    expect(isinstance(t.test, ast.BoolOp) and len(t.test.values) == 2, f"{what}: cache test is not `a <conn> b`")
+    d["conn"] = "and" if isinstance(t.test.op, ast.And) else "or"
+    for nm, cmpn in zip(("top", "bot"), t.test.values):
+        expect(isinstance(cmpn, ast.Compare) and len(cmpn.ops) == 1 and type(cmpn.ops[0]) in CMP, f"{what}: cache test operand is not a comparison")
+        d[nm] = (_arith(cmpn.left, env2, what), CMP[type(cmpn.ops[0])], _arith(cmpn.comparators[0], env2, what))
+    pad = stmts[1]
+    expect(isinstance(pad, ast.Assign) and isinstance(pad.targets[0], ast.Name), f"{what}: no padded height")
+    d["padded"] = _arith(pad.value, env, what)
+    bf = stmts[2]
+    expect(isinstance(bf, ast.Assign) and isinstance(bf.value, ast.Call) and dotted(bf.value.func) == "self.boundFootprint"
+           and [ast.unparse(a) for a in bf.value.args] == [args[1], pad.targets[0].id], f"{what}: boundFootprint is not called with (centerZ, padded height)")
+    st = stmts[3]
+    expect(isinstance(st, ast.Assign) and ast.unparse(st.targets[0]) == "self._bounded_cache"
+           and isinstance(st.value, ast.Tuple) and [ast.unparse(e) for e in st.value.elts] == [args[1], pad.targets[0].id, bf.targets[0].id],
+           f"{what}: the cache is not set to (centerZ, padded height, region)")
+    expect(isinstance(stmts[4], ast.Return) and ast.unparse(stmts[4].value) == bf.targets[0].id, f"{what}: does not return the new region")
+    return d
+
+
+def extract_regioninner():
+    src, tree = load(REGIONS)
+    what = "MeshVolumeRegion.containsRegionInner"
+    fn = get_def(tree, "MeshVolumeRegion.containsRegionInner", REGIONS)
+    reg = fn.args.args[1].arg
+    body = _isinstance_branch(fn, reg, "MeshVolumeRegion", what)
+    expect(len(body) == 2 and isinstance(body[0], ast.Assign) and isinstance(body[1], ast.Return), f"{what}: skeleton changed")
+    v = body[0].value
+    expect(isinstance(v, ast.Call) and isinstance(v.func, ast.Attribute) and v.func.attr == "difference" and len(v.args) == 1,
+           f"{what}: not a boolean difference")
+    pair = (ast.unparse(v.func.value), ast.unparse(v.args[0]))
+    expect(pair in ((reg, "self"), ("self", reg)), f"{what}: difference of unexpected operands {pair}")
+    r, neg = body[1].value, False
+    if isinstance(r, ast.UnaryOp) and isinstance(r.op, ast.Not):
+        neg, r = True, r.operand
+    expect(isinstance(r, ast.Call) and dotted(r.func) == "isinstance" and ast.unparse(r.args[0]) == ast.unparse(body[0].targets[0])
+           and ast.unparse(r.args[1]) == "EmptyRegion", f"{what}: answer is not isinstance(diff, EmptyRegion)")
+    return {"swapped": pair == ("self", reg), "negate": neg}
+
+
 PINNED = {
+    "surface": {'p1Ret': False, 'p2Ret': True, 'p3Negate': False},
+    "footslab": {'center': '((hi + lo) / (2 : Rat))', 'height': '((hi - lo) + (1 : Rat))', 'conn': 'and',
+                 'top': ('(pc + (ph / (2 : Rat)))', 'gt', '(cz + (h / (2 : Rat)))'),
+                 'bot': ('(pc - (ph / (2 : Rat)))', 'lt', '(cz - (h / (2 : Rat)))'),
+                 'padded': '(((100 : Rat) * (maxR (1 : Rat) cz)) * h)'},
+    "regioninner": {'swapped': False, 'negate': False},
     "intersects": {'p1': ('o.centerDist', 'gt', '(o.circS + o.circO)', False), 'p2Guard': 'and',
                    'p2aIn': ('o.pointDist', 'lt', '(o.inS + o.inO)', True), 'p2aCirc': ('o.pointDist', 'gt', '(o.pcircS + o.pcircO)', False),
                    'p2bRet': False, 'p3HitRet': True, 'p3Convex': 'and', 'p4Bodies': 1, 'p4Guard': 'and', 'p4Conn': 'or', 'p5Negate': True},
@@ -933,14 +1113,15 @@ this (so that Gen/Solid.lean always builds and the theorems stay about a definit
 section to the current source then rests on the correspondence run at the escalated budget"""
 
 SECTIONS = [("intersects", None), ("contains", None), ("footprint", None), ("object", None), ("circumradius", None),
-            ("voldist", None), ("isconvex", None)]
+            ("voldist", None), ("isconvex", None), ("surface", None), ("footslab", None), ("regioninner", None)]
 
 
 def extract_tolerant():
     """-> (data, errors): every section is extracted independently; a mismatching one is replaced by PINNED"""
     fns = {"intersects": extract_intersects, "contains": extract_contains, "footprint": extract_footprint,
            "object": extract_object, "circumradius": extract_circumradius, "voldist": extract_voldist,
-           "isconvex": extract_isconvex}
+           "isconvex": extract_isconvex, "surface": extract_surface, "footslab": extract_footslab,
+           "regioninner": extract_regioninner}
     d, errors = {}, []
     for name, _ in SECTIONS:
         try:
@@ -965,8 +1146,10 @@ def subst_bodies(s):
 def to_lean(d):
     i, c, f, ob, cr = d["intersects"], d["contains"], d["footprint"], d["object"], d["circumradius"]
     vd, cv = d["voldist"], d["isconvex"]
+    sf, fs, ri = d["surface"], d["footslab"], d["regioninner"]
     needs_box, pitch, roll = ob["planar"]
     out = f"""import ScenicModel.Model.Solid
+set_option linter.unusedVariables false
 namespace Scenic.Gen
 open Scenic.Solid
 
@@ -1047,6 +1230,26 @@ def convexCfg : ConvexCfg :=
     volLhs := fun o => {cv['vol'][0]},
     volCmp := .{cv['vol'][1]},
     volRhs := fun o => {cv['vol'][2]} }}
+
+/-- the three passes of `MeshVolumeRegion.intersects(MeshSurfaceRegion)` -/
+def surfCfg : SurfCfg := {{ p1Ret := {lb(sf['p1Ret'])}, p2Ret := {lb(sf['p2Ret'])}, p3Negate := {lb(sf['p3Negate'])} }}
+
+/-- the slab of `MeshVolumeRegion.intersects(PolygonalFootprintRegion)` and the cache test / padding of
+    `PolygonalFootprintRegion.approxBoundFootprint` -/
+def slabCfg : SlabCfg :=
+  {{ height := fun lo hi => {fs['height']},
+    center := fun lo hi => {fs['center']},
+    topLhs := fun pc ph cz h => {fs['top'][0]},
+    topCmp := .{fs['top'][1]},
+    topRhs := fun pc ph cz h => {fs['top'][2]},
+    botLhs := fun pc ph cz h => {fs['bot'][0]},
+    botCmp := .{fs['bot'][1]},
+    botRhs := fun pc ph cz h => {fs['bot'][2]},
+    conn := .{fs['conn']},
+    padded := fun cz h => {fs['padded']} }}
+
+/-- `MeshVolumeRegion.containsRegionInner(MeshVolumeRegion)` -/
+def innerCfg : InnerCfg := {{ swapped := {lb(ri['swapped'])}, negate := {lb(ri['negate'])} }}
 
 end Scenic.Gen
 """
